@@ -105,6 +105,7 @@ func runCase(f Fn, args []string) (res string) {
 		inputGuards = inputGuards[:0]
 		heldVals = heldVals[:0]
 		heldRenders = heldRenders[:0]
+		holdOff = false
 		out := f(args)
 		for _, g := range inputGuards {
 			if m := g(); m != "" {
